@@ -64,6 +64,8 @@ def relational(cases, impl):
             # messages fit, one newline each: same handler log, errors, queue and response bytes as process
             fr = parse_fields(impl[i])
             fp = parse_fields(impl[procs[0]])
+            if any(x != '0' for x in parse_list(fr.get('rest', '[]'))):
+                continue    # some "message" leaves a string or block open: its newline is not a terminator (DESIGN section 7)
             wbytes = ''.join(t[2:] for t in parse_list(fp.get('tr', '[]')) if t.startswith('W:')) or '-'
             if (fr.get('log'), fr.get('errs'), fr.get('q')) != (fp.get('log'), fp.get('errs'), fp.get('q')) or fr.get('out') != wbytes:
                 if '-223' in fp.get('errs', '') or '-310' in fp.get('errs', ''):
